@@ -149,7 +149,7 @@ impl Run {
             );
         }
         let mut exit = 0;
-        let dir = format!("/verif/replays/{}", self.id);
+        let dir = format!("{}/replays/{}", crate::env::root(), self.id);
         let max_print = 12;
         for (i, (n, d)) in violations.iter().enumerate() {
             let _ = std::fs::create_dir_all(&dir);
@@ -234,8 +234,8 @@ impl Run {
             "wall_s": self.elapsed(),
             "violations": violations.len(),
         });
-        let _ = std::fs::create_dir_all("/verif/evidence");
-        let p = format!("/verif/evidence/{}.json", self.id);
+        let _ = std::fs::create_dir_all(format!("{}/evidence", crate::env::root()));
+        let p = format!("{}/evidence/{}.json", crate::env::root(), self.id);
         if let Err(e) = std::fs::write(&p, serde_json::to_string_pretty(&ev).unwrap()) {
             println!("MACHINERY: cannot write evidence {}: {}", p, e);
             if exit == 0 {
@@ -271,7 +271,7 @@ pub struct Finding {
 
 pub fn load_findings() -> Vec<Finding> {
     let mut out = vec![];
-    let txt = std::fs::read_to_string("/verif/known_findings.jsonl").unwrap_or_default();
+    let txt = std::fs::read_to_string(format!("{}/known_findings.jsonl", crate::env::root())).unwrap_or_default();
     for line in txt.lines() {
         let line = line.trim();
         if line.is_empty() || line.starts_with('#') || line.starts_with("fixed:") {
